@@ -1,0 +1,20 @@
+//go:build unix
+
+package handler
+
+import (
+	"io/fs"
+	"syscall"
+)
+
+// fileID is what the system identifies a file by.
+type fileID struct{ dev, ino uint64 }
+
+func fileIDOf(info fs.FileInfo) (fileID, bool) {
+	stat, ok := info.Sys().(*syscall.Stat_t)
+	if !ok {
+		return fileID{}, false
+	}
+
+	return fileID{dev: uint64(stat.Dev), ino: uint64(stat.Ino)}, true //nolint:unconvert // types differ between platforms
+}
